@@ -97,11 +97,19 @@ def hexLcEven (n : Nat) : Bytes :=
 
 def crlf : Bytes := [cr, lf]
 
+/-- decimal rendering (buffer_append_int for non-negative values) -/
+def decDigits : Nat → Nat → Bytes
+  | 0, _ => [48]
+  | fuel + 1, n =>
+    if n < 10 then [48 + n.toUInt8] else decDigits fuel (n / 10) ++ [48 + (n % 10).toUInt8]
+
+def decBytes (n : Nat) : Bytes := decDigits 40 n
+
 /-- http_status_append() -/
 def statusText (status : Nat) : Bytes :=
   match Extracted.statusReasons.find? (·.1 = status) with
   | some (_, t) => ofString t
-  | none => natToDec status ++ [sp]
+  | none => decBytes status ++ [sp]
 
 /-! ## configuration and state -/
 
@@ -289,6 +297,12 @@ def fieldOfLine (line : Bytes) : Option (Bytes × Bytes) :=
       let v := if v0.getLast? = some cr then v0.dropLast else v0
       some (k, v)
 
+/-- the field name ends in SP / HT (whitespace between name and colon) -/
+def endsWs (k : Bytes) : Bool :=
+  match k.getLast? with
+  | some b => isWs b
+  | none => false
+
 /-- one response field from the backend (the switch of http_response_process_headers) -/
 def applyField (cfg : Cfg) (st : St) (k v : Bytes) : St :=
   let lk := lower k
@@ -322,7 +336,7 @@ def applyField (cfg : Cfg) (st : St) (k v : Bytes) : St :=
         { st with scratch := -1, headers := hdrUnset st.headers nContentLength } else st
     { st1 with decodeChunked := true, dc := some {}, dcDone := 0, trailerBuf := [] }
   else if lk = nHttp2Settings then st
-  else if (match k.getLast? with | some b => isWs b | none => false) then st
+  else if endsWs k then st
   else ins st v
 
 def applyLine (cfg : Cfg) (st : St) (line : Bytes) : St :=
@@ -445,12 +459,16 @@ def parseHeaders (cfg : Cfg) : Nat → St → St × Rc
               let (st3, ok) := appendMem st2 rest
               (st3, if ok then .goOn else .error)
 
+/-- more response header bytes from the backend: accumulate and parse again from the start -/
+def headerStep (cfg : Cfg) (st : St) (data : Bytes) : St × Rc :=
+  parseHeaders cfg (st.hbuf.length + data.length + 1) { st with hbuf := st.hbuf ++ data }
+
 /-! ## reading from the backend (http_response_read / fcgi_recv_parse) -/
 
 /-- one read() that returned `seg` (non-empty), backends without a record layer -/
 def readPlain (cfg : Cfg) (st : St) (seg : Bytes) : St × Rc :=
   if !st.started then
-    let (st1, rc) := parseHeaders cfg (st.hbuf.length + seg.length + 1) { st with hbuf := st.hbuf ++ seg }
+    let (st1, rc) := headerStep cfg st seg
     if rc ≠ .goOn then (st1, rc)
     else if st1.started then
       let st2 : St := { st1 with hbuf := [] }
@@ -469,7 +487,7 @@ def fcgiDispatch (cfg : Cfg) : List FrEv → St → St × Bool
     | .stdout data =>
       if data.isEmpty then fcgiDispatch cfg rest st
       else if !st.started then
-        let (st1, rc) := parseHeaders cfg (st.hbuf.length + data.length + 1) { st with hbuf := st.hbuf ++ data }
+        let (st1, rc) := headerStep cfg st data
         if rc ≠ .goOn then ({ st1 with fcgiSend := false }, true)
         else fcgiDispatch cfg rest st1
       else if st.fcgiSend then
@@ -628,7 +646,7 @@ def noLen (st : St) : Bool := !hasHdr st.headers nContentLength && !hasHdr st.he
 def wpSetLength (cfg : Cfg) (st : St) : St :=
   if noLen st then
     if st.wq.length > 0 then
-      { st with headers := hdrSet st.headers (ofString "Content-Length") (natToDec st.wq.length) }
+      { st with headers := hdrSet st.headers (ofString "Content-Length") (decBytes st.wq.length) }
     else if !cfg.head && st.status ≠ 204 && st.status ≠ 304 then
       { st with headers := hdrSet st.headers (ofString "Content-Length") (ofString "0") }
     else st
